@@ -17,5 +17,13 @@ if ! { cargo build --release --offline -p vcheck >"$LOG" 2>&1 && { [ -z "$EXTRA"
   tail -30 "$LOG"
   exit 2
 fi
+if [ "$ID" = "C19" ]; then
+  # the CLI under test: built from /repo's working tree with its default features, outside /repo
+  if ! ( cd /repo && CARGO_TARGET_DIR=/verif/harness/target/wac-cli cargo build --release --offline --bin wac >>"$LOG" 2>&1 ); then
+    echo "BUILD-FAILED (the wac binary does not build); see $LOG"
+    tail -30 "$LOG"
+    exit 2
+  fi
+fi
 cd /verif
 exec /verif/harness/target/release/check "$ID" --tier "$TIER" "$@"
